@@ -1,14 +1,17 @@
 import TcheranVerif.Model.Search
+import TcheranVerif.Proofs.SearchSound
 /-!
 # C08 — mate announcements: the score ↔ distance arithmetic (theorems), lines by oracle
 
 `mate_in_moves` / `mated_in_moves`: the announced number of moves is exactly the one that a line of
 `p` plies ending in mate corresponds to (`2N−1 = p` resp. `2|N| = p`). `tt_roundtrip`: storing a mate
-score relative to the position and reading it back at the same ply returns the score. The claims
-about the *lines* (legal, non-empty, length matches, ends in mate, depths step by one) are checked on
-every info line of every iteration against the Rules specification and by verbatim agreement with
-the search model (`Model/Search.lean`); the structural proof sketched in DESIGN App. B (S1, S6) is
-not mechanised: partial.
+score relative to the position and reading it back at the same ply returns the score. **`reported_lines_legal`**: every line the search model reports, at every iteration, whatever the
+tables hold and wherever it is stopped, is a non-empty sequence of moves each legal in the position reached
+by the ones before it (`LegalLine`, from the root) — by the induction of `Proofs/SearchSound.lean`, under
+the stated key-faithfulness assumption. **`reported_depths`**: the reported depths are 1, 2, …, k with
+k at most the requested limit. That the *length* of a line matches a mate announcement and that its last
+position is mate (DESIGN App. B S6) is checked on every info line of every iteration against the Rules
+specification and by verbatim agreement with the search model: partial.
 -/
 namespace Tcheran.Props.C08
 open Tcheran Tcheran.Search
@@ -59,6 +62,27 @@ theorem mate_scores_in_range (p : Nat) (hp : p ≤ 255) : inI16 (mateIn p) = tru
   simp only [Bool.and_eq_true, decide_eq_true_eq]
   omega
 
+
+open Rules in
+/-- **reported_lines_legal** -/
+theorem reported_lines_legal (T : SliderTables) (U : Universe) (fuel : Nat) (g : Game) (tt : TT.Table)
+    (history : Array Int) (depthLimit : Option Nat) (stopAt : Nat) (everyNode : Bool)
+    (hr : U.R 0 g) (htt : TTGood U tt) :
+    ∀ i ∈ (search fuel g tt history depthLimit stopAt everyNode).infos, i.pv ≠ [] ∧ LegalLine g i.pv :=
+  (search_sound T U fuel g tt history depthLimit stopAt everyNode hr htt).2.1
+
+/-- **reported_depths**: depths 1, 2, …, k and `k ≤` the limit (the maximum search depth when none is given) -/
+theorem reported_depths (fuel : Nat) (g : Game) (tt : TT.Table) (history : Array Int)
+    (depthLimit : Option Nat) (stopAt : Nat) (everyNode : Bool) :
+    (search fuel g tt history depthLimit stopAt everyNode).infos.map (·.depth) =
+      List.range' 1 (search fuel g tt history depthLimit stopAt everyNode).infos.length ∧
+    (search fuel g tt history depthLimit stopAt everyNode).infos.length ≤ depthLimit.getD Gen.maxSearchDepth :=
+  search_depths fuel g tt history depthLimit stopAt everyNode
+
+/-- a legal line can be played: the engine's `make_move` answers at every step with the rules' position -/
+theorem legal_line_playable (g : Game) (m : Move) (rest : List Move) (h : LegalLine g (m :: rest)) :
+    m ∈ Rules.legalMoves (Rules.ofGame g) ∧ ∃ g', Game.makeMove theCfg g m = some g' ∧ LegalLine g' rest := h
+
 example : isMateInMoves (mateIn 3) = some 2 := by decide
 example : isMateInMoves (matedIn 4) = some (-2) := by decide
 
@@ -70,3 +94,6 @@ end Tcheran.Props.C08
 #print axioms Tcheran.Props.C08.tt_roundtrip
 #print axioms Tcheran.Props.C08.mate_scores_in_range
 #print axioms Tcheran.Props.C08.mate_consts
+#print axioms Tcheran.Props.C08.reported_lines_legal
+#print axioms Tcheran.Props.C08.reported_depths
+#print axioms Tcheran.Props.C08.legal_line_playable
